@@ -1,7 +1,7 @@
 //! Value-chain harness (C13).
 //! Sequential case:  case <id> SEQ <k> (<kind> <n> <op>..)*      kind: o = original, c = clone of the previous instance
 //!                         upper case (O / C): the instance is finally dropped WHILE ITS THREAD IS UNWINDING from a panic
-//!                   op: r:<ty>:<v> = make_ref, m:<ty>:<v> = make_mut, l = observe live count,
+//!                   op: r:<ty>:<v> = make_ref, m:<ty>:<v> = make_mut, M:<ty>:<v> / Q:0:<v> = a mocked `&mut self` method returning `&mut T` / `Option<&mut T>` answered with make_mut, l = live count,
 //!                       h:<ty>:<v> = lend through the delegation helper (a `&self` provided method whose body calls a required
 //!                                    method answered with `u.make_ref(..)`: the value lives in the helper's chain),
 //!                       t = call a `&mut self` provided method (goes through AsMut<DefaultImplDelegator>)
@@ -80,6 +80,11 @@ pub trait H {
     fn touch_pin(self: std::pin::Pin<&mut Self>) -> u64 {
         7
     }
+    /// `&mut` results (output kind MutLending, the polonius template of the attribute): answered with `u.make_mut(..)`
+    fn mreq_a(&mut self, v: u64) -> &mut ValA;
+    fn mreq_b(&mut self, v: u64) -> &mut ValB;
+    /// ... and below an Option (a Mixed output with a `&mut` leaf)
+    fn mopt_a(&mut self, v: u64) -> Option<&mut ValA>;
     /// a borrowed return configured with returns(): the value lives in the shared call pattern
     fn bor(&self) -> &ValA;
     /// answered with the number of live lent values at the moment of the call
@@ -101,6 +106,9 @@ fn new_original() -> Unimock {
         HMock::bor.each_call(matching!()).returns(ValA::new(4242)),
         HMock::probe.each_call(matching!()).answers(&|_| live() as u64),
         HMock::req_mut.each_call(matching!()).returns(7u64),
+        HMock::mreq_a.each_call(matching!(_)).answers(&|u, v| u.make_mut(ValA::new(v))),
+        HMock::mreq_b.each_call(matching!(_)).answers(&|u, v| u.make_mut(ValB::new(v))),
+        HMock::mopt_a.each_call(matching!(_)).answers(&|u, v| Some(u.make_mut(ValA::new(v)))),
     ));
     // verification is not what this harness is about: both clauses are used once up front (through a short-lived
     // clone, whose chain takes the two values with it) so that the original's teardown has nothing to report
@@ -108,6 +116,9 @@ fn new_original() -> Unimock {
     let _ = (H::req_a(&c, 0).0, H::req_b(&c, 0).0, H::bor(&c).0, H::probe(&c));
     let mut c = c;
     let _ = H::req_mut(&mut c);
+    let _ = H::mreq_a(&mut c, 0).0;
+    let _ = H::mreq_b(&mut c, 0).0;
+    let _ = H::mopt_a(&mut c, 0).map(|m| m.0);
     drop(c);
     u
 }
@@ -132,6 +143,8 @@ impl Held<'_> {
 enum Op {
     Ref(u8, u64),
     Mut(u8, u64),
+    /// the same through a mocked `&mut self` method with a `&mut` result (0, 1) or an `Option<&mut _>` result (3)
+    MutM(u8, u64),
     Live,
     Help(u8, u64),
     Touch,
@@ -146,6 +159,8 @@ fn parse_op(s: &str) -> Op {
     match p[0] {
         "r" => Op::Ref(p[1].parse().unwrap(), p[2].parse().unwrap()),
         "m" => Op::Mut(p[1].parse().unwrap(), p[2].parse().unwrap()),
+        "M" => Op::MutM(p[1].parse().unwrap(), p[2].parse().unwrap()),
+        "Q" => Op::MutM(3, p[2].parse().unwrap()),
         "l" => Op::Live,
         "h" => Op::Help(p[1].parse().unwrap(), p[2].parse().unwrap()),
         "t" => Op::Touch,
@@ -182,7 +197,7 @@ fn shared_phase(u: &Unimock, ops: &[Op], out: &mut impl Write) -> usize {
                 writeln!(out, "[{}] live={}", show_all(&held), live()).unwrap();
             }
             Op::Live => writeln!(out, "[{}] live={}", show_all(&held), live()).unwrap(),
-            Op::Mut(..) | Op::Touch | Op::TouchPin | Op::Nvid | Op::Consume => break,
+            Op::Mut(..) | Op::MutM(..) | Op::Touch | Op::TouchPin | Op::Nvid | Op::Consume => break,
         }
         k += 1;
     }
@@ -209,6 +224,26 @@ fn session(u: &mut Unimock, ops: &[Op], out: &mut impl Write) {
                     _ => {
                         let _m = u.make_mut(Guard::new());
                         "2:0".to_string()
+                    }
+                };
+                writeln!(out, "[{shown}] live={}", live()).unwrap();
+                k += 1;
+            } else if let Op::MutM(ty, v) = ops[k] {
+                let shown = match ty {
+                    0 => {
+                        let m = H::mreq_a(u, v);
+                        m.0 += 1000;
+                        format!("0:{}", m.0)
+                    }
+                    1 => {
+                        let m = H::mreq_b(u, v);
+                        m.0 += 1000;
+                        format!("1:{}", m.0)
+                    }
+                    _ => {
+                        let m = H::mopt_a(u, v).expect("Some(&mut)");
+                        m.0 += 1000;
+                        format!("0:{}", m.0)
                     }
                 };
                 writeln!(out, "[{shown}] live={}", live()).unwrap();
